@@ -288,6 +288,33 @@ def sharedSpec (script : List (El Item)) (acts : List Act) (toks : List String) 
           else go as ts heads
   go acts toks []
 
+def parseRes (t : String) : Option (Res Item) :=
+  if t == "D" then some Res.done
+  else if t == "C" then some Res.cancelled
+  else match t.toList with
+    | 'E' :: r =>
+      match (String.ofList r).splitOn "+" with
+      | [n] => n.toNat?.map fun n => Res.err (.fail n) none
+      | [n, v] =>
+        match n.toNat?, parseEl v with
+        | some n, some (.item a) => some (Res.err (.fail n) (some a))
+        | _, _ => none
+      | _ => none
+    | _ =>
+      match parseEl t with
+      | some (.item a) => some (Res.ok a)
+      | _ => none
+
+open OpenFGAVerif.Model.SharedIter in
+def parseOut (a : Act) (t : String) : Option (Out Item) :=
+  if t == "noclone" then some .noClone else
+  match a with
+  | .clone => if t == "c1" then some (.cloned true) else if t == "cnew" then some (.cloned false) else none
+  | .expire => if t == "x" then some .unit else none
+  | .stop _ => if t == "s" then some .unit else none
+  | .next _ _ => (parseRes t).map Out.res
+  | .head _ _ => (parseRes t).map Out.res
+
 open OpenFGAVerif.Model.SharedIter in
 def stepShared (scriptS actsS impl : String) : String :=
   match parseScript scriptS, (actsS.splitOn ",").mapM parseAct with
@@ -298,7 +325,13 @@ def stepShared (scriptS actsS impl : String) : String :=
     let toks := match impl.splitOn " | " with
       | r :: _ => if r == "-" then [] else r.splitOn ","
       | [] => []
-    match sharedSpec script acts toks with
+    -- the decision is taken by `traceOK`, the checker that `C23.shared_every_interleaving` proves to accept every
+    -- history of the model; `sharedSpec` only words the explanation
+    let verdictOK : Bool :=
+      match (acts.zip toks).mapM (fun (a, t) => parseOut a t) with
+      | some outs => toks.length == acts.length && traceOK script acts outs []
+      | none => true   -- unparsable output: left to the model comparison below
+    match (if verdictOK then none else some ((sharedSpec script acts toks).getD "a clone's history is not the underlying sequence")) with
     | some why => specViol why
     | none =>
       -- the underlying iterator is read at most once per element (+ one read of Done)
